@@ -9,6 +9,7 @@ import itertools
 import socket
 
 import seqrun as S
+import world as W
 from framework import Result, drive
 from props import c05
 
@@ -26,6 +27,15 @@ EXPLANATION = (
 )
 ASSUMPTIONS = ["shipped MemoryUserManager; no per-user connection limits in these tables (limits are C10)"]
 GENERATED_OBLIGATIONS = ["Verb.guards (decorator stacks of all handlers)"]
+
+# a third table: a password with non-ASCII characters (a comparison that folds or replaces them accepts neighbours)
+USERS_UNI = [W.UserSpec("zoë", "pässwörd", home="/d"), W.UserSpec("bob", None)]
+UNI_PASSES = ["pässwörd", "pàsswòrd", "p?ssw?rd", "password", "pa\u0308sswo\u0308rd", "PÄSSWÖRD", "pässwör", "pässwörd ", "p中ssw中rd", ""]
+
+
+def table_users(table):
+    return {"anon": S.USERS_ANON, "noanon": S.USERS_NOANON, "uni": USERS_UNI}[table]
+
 
 LOGIN_CMDS = ["USER alice", "USER bob", "USER nobody", "USER anonymous", "USER", "USER carol", "PASS secret", "PASS wrong", "PASS", "pass secret", "PaSs secret"]
 PROBES = [c for c in c05.CMDS if not c.upper().startswith(("USER", "PASS")) and c not in ("QUIT",)]
@@ -75,6 +85,10 @@ def gen(ctx):
             hist.append((table, ["USER alice", "PASS wrong", p]))
             hist.append((table, ["USER bob", "USER alice", p]))
             hist.append((table, ["USER alice", "PASS secret", "USER alice", p]))
+    for pw in UNI_PASSES:
+        for probe in (["MKD zz", "PWD"], ["CWD /", "DELE f.txt"], ["EPSV", "@data", "RETR f.txt"]):
+            hist.append(("uni", ["USER zoë", "PASS " + pw] + probe))
+            hist.append(("uni", ["USER zoë", "PASS wrong", "PASS " + pw] + probe))
     rng = ctx.rng
     for _ in range(ctx.pick(300, 4000)):
         seq = []
@@ -110,13 +124,13 @@ def _run(ctx, hist, compare=True):
     res = Result()
     jobs = []
     for table, cmds in hist:
-        users = S.USERS_ANON if table == "anon" else S.USERS_NOANON
+        users = table_users(table)
         jobs.append((users, S.TREE, c05.to_events(cmds), "memory", None, socket.AF_INET))
     outs = S.run_many(jobs)
     all_lines, spans = [], []
     for (table, cmds), snaps in zip(hist, outs):
         res.cases += 1
-        users = S.USERS_ANON if table == "anon" else S.USERS_NOANON
+        users = table_users(table)
         if isinstance(snaps, str):
             res.disagreements.append({"correspondence": "harness", "input": cmds, "impl": snaps})
             continue
@@ -215,10 +229,58 @@ def _late(ctx):
     return LC.run_family(ctx, "C03", LC.c03_plans(ctx), lambda p: (users, bases, LC.C03_TREE, p, ["USER bob"]), LC.c03_oracle)
 
 
+def _lockstep(ctx):
+    """two sessions send the same protected verb in the same instant, one of them without a completed login
+    (fresh, or with a USER awaiting its password): that one is answered 503 and changes nothing, in either order"""
+    import multiprocessing
+    import os
+
+    from props import c17
+
+    res = Result()
+    cmds = ["PWD", "MKD /{p}/zz{i}", "CWD /{p}", "MLST /{p}/f.bin", "RNFR /{p}/f.bin", "DELE /{p}/sub/x.txt", "EPSV", "TYPE I"]
+    jobs = []
+    for unl in ("fresh", "user-only"):
+        for lg in ("logged", "logged-pa", "alice"):
+            for cmd in cmds:
+                jobs.append(((unl, lg), cmd, (0, 1)))  # the session without a login writes first
+                jobs.append(((unl, lg), cmd, (1, 0)))  # ... or second
+                jobs.append(((lg, unl), cmd, (0, 1)))
+    mp = multiprocessing.get_context("fork")
+    with mp.Pool(min(16, os.cpu_count() or 4)) as pool:
+        outs = pool.map(c17._lock_job, jobs, chunksize=8)
+    for (sts, cmd, who), o in zip(jobs, outs):
+        res.cases += 1
+        res.count("lockstep_two_sessions")
+        if isinstance(o, str):
+            res.disagreements.append({"correspondence": "C03 lockstep harness", "input": [list(sts), cmd, list(who)], "impl": o})
+            continue
+        res.distinct.add(("lockstep", sts, cmd, who))
+        for i, st in enumerate(sts):
+            if st in ("fresh", "user-only"):
+                codes = [str(x) for x in o[i]["codes"]]
+                if codes != ["503"]:
+                    res.oracle_failures.append({
+                        "input": {"kind": "lockstep", "states": list(sts), "command": cmd, "order": list(who), "session": i},
+                        "what": "session %d has no completed login (%s) and sent %r in the same instant as a logged-in session: answered %r (want 503)" % (i, st, cmd, codes),
+                        "signature": "C03:lockstep:served-without-login",
+                    })
+                    break
+                if "zz%d" % i in o.get("tree", ""):
+                    res.oracle_failures.append({
+                        "input": {"kind": "lockstep", "states": list(sts), "command": cmd, "order": list(who), "session": i},
+                        "what": "a session without a completed login changed the tree with %r" % cmd,
+                        "signature": "C03:lockstep:served-without-login",
+                    })
+                    break
+    return res
+
+
 def correspondence(ctx):
     r = _run(ctx, gen(ctx))
     r.merge(_run_pipelined(ctx))
     r.merge(_late(ctx))
+    r.merge(_lockstep(ctx))
     return r
 
 
@@ -231,6 +293,7 @@ def search(ctx, prior):
     r = _run(ctx, hist, compare=False)
     r.merge(_run_pipelined(ctx))
     r.merge(_late(ctx))
+    r.merge(_lockstep(ctx))
     return r
 
 
@@ -247,7 +310,13 @@ def replay(ctx, doc):
         print("plan:", plan)
         print("oracle:", f)
         return f is not None
-    users = S.USERS_ANON if inp.get("table", "anon") == "anon" else S.USERS_NOANON
+    if inp.get("kind") == "lockstep":
+        from props import c17
+
+        o = c17._lock_job((tuple(inp["states"]), inp["command"], tuple(inp["order"])))
+        print(o if isinstance(o, str) else {k: v for k, v in o.items() if k != "tree"})
+        return isinstance(o, str) or [str(x) for x in o[inp["session"]]["codes"]] != ["503"]
+    users = table_users(inp.get("table", "anon"))
     if inp.get("pipelined"):
         snap = S.run_pipelined(users, S.TREE, inp["commands"])
         f = pipelined_oracle(users, inp["commands"], snap)
